@@ -428,8 +428,13 @@ impl Scenario for C18 {
     let mut cs = case.clone();
     cs.threads_flavour = true;
     let b = run_pipeline(&cs)?;
-    let ta: Vec<(Ev, u64)> = a.recs.iter().map(|r| (r.ev.clone(), r.t)).collect();
-    let tb: Vec<(Ev, u64)> = b.recs.iter().map(|r| (r.ev.clone(), r.t)).collect();
+    // the statement is about the delivered notification sequence; delivery
+    // times and is_closed() samples are compared for information only (C07/C08
+    // and C17 judge those)
+    let ta: Vec<Ev> = a.recs.iter().map(|r| r.ev.clone()).collect();
+    let tb: Vec<Ev> = b.recs.iter().map(|r| r.ev.clone()).collect();
+    let times_differ = a.recs.iter().map(|r| r.t).collect::<Vec<_>>() != b.recs.iter().map(|r| r.t).collect::<Vec<_>>();
+    let closed_differ = a.closed.iter().map(|c| c.1).collect::<Vec<_>>() != b.closed.iter().map(|c| c.1).collect::<Vec<_>>();
     let mut violation = None;
     // a panic in one flavour only is a divergence too; a panic in both is
     // somebody else's finding (BorrowMutError vs self-deadlock are the same defect)
@@ -450,10 +455,9 @@ impl Scenario for C18 {
           b.recs.iter().map(|r| format!("{}@{}", fmt_ev(&r.ev), r.t / crate::world::MS)).collect::<Vec<_>>().join(" ")
         ),
       });
-    } else if a.panic.is_none() && a.closed.iter().map(|c| c.1).collect::<Vec<_>>() != b.closed.iter().map(|c| c.1).collect::<Vec<_>>() {
-      violation = Some(Violation { rule: "c18.is-closed-differs".into(), site: site_of(&case), detail: format!("`{}`: is_closed() samples differ between the flavours", a.trace.trim()) });
     }
-    let mut o = outcome(&case, &a, violation, a.recs.len() >= 1, vec![], vec![("locks_taken_by_threads_flavour", b.locks)]);
+    let violation_none = violation.is_none() && a.panic.is_none();
+    let mut o = outcome(&case, &a, violation, a.recs.len() >= 1, vec![], vec![("locks_taken_by_threads_flavour", b.locks), ("info:same_sequence_but_delivery_times_differ", (violation_none && times_differ) as u64), ("info:same_sequence_but_is_closed_samples_differ", (violation_none && closed_differ) as u64)]);
     o.trace_hash = hash_mix(hash_mix(o.trace_hash, 0x5bd1e995), hash_run(&b));
     Ok(o)
   }
